@@ -275,6 +275,23 @@ class Impl:
     def op_dump_task(self):
         if self.wrapper.mw_error: return "MOSEK-ERROR " + self.wrapper.mw_error.split(":")[0].replace("AssertionError", "IndexError")
         return show_task(self.wrapper.mw.task.calls)
+    def op_dump_mosekduals(self):
+        """the REAL `MosekWrapper._recover_dual_values` on the stand-in task, with a scripted solution in which row `r` carries
+        the multiplier 7000 + r and matrix variable `j` the (negated) multiplier (8000 + j)·I: every sent item must receive the
+        multiplier of its OWN row / its OWN matrix variable (`Mosek.mspec`, theorem `mrecover_spec`)"""
+        if self.wrapper.mw_error: return "MOSEK-ERROR"
+        mw = self.wrapper.mw; t = mw.task
+        t.sol = dict(xx=np.zeros(t.numvar), barx=[np.eye(d) for d in t.bardims], y=[7000.0 + r for r in range(t.numcon)],
+                     bars=[-(8000.0 + j) * np.eye(d) for j, d in enumerate(t.bardims)])
+        try:
+            duals, residual = mw._recover_dual_values()
+        except (AssertionError, IndexError) as ex:
+            return "EXC " + type(ex).__name__
+        toks = []
+        for d in duals:
+            d = np.asarray(d, dtype=float)
+            toks.append("empty" if d.size == 0 else str(int(round(float(d.reshape(-1)[0])))))
+        return "duals=" + ",".join(toks)
     def op_dump_heur(self, seed):
         rng = np.random.default_rng(int(seed)); n = Point.counter
         A = rng.integers(-2, 3, size=(n, n)).astype(float); W = A + A.T
@@ -686,7 +703,7 @@ def gen_collect(seed):
     p.emit("dump.cvx %d" % rnd.randint(0, 10 ** 6))
     if rnd.random() < .5: p.emit("dump.cvxheur %d" % rnd.randint(0, 10 ** 6))
     if os.environ.get("PEPV_TEE"):
-        p.emit("dump.task"); p.emit("dump.dense")
+        p.emit("dump.task"); p.emit("dump.dense"); p.emit("dump.mosekduals")
         if rnd.random() < .5: p.emit("dump.heur %d" % rnd.randint(0, 10 ** 6))
     if rnd.random() < .4:
         # a second solve, possibly after the user edited the model: a constraint attached to the partition, one more sample
